@@ -11,6 +11,7 @@ package ucfg
 import (
 	"reflect"
 	"strconv"
+	"time"
 )
 
 // ghost_parsesInt: strconv.ParseInt(s, 0, 64) succeeds.
@@ -85,3 +86,16 @@ func ghost_parsesFloat(s string) bool { _, err := strconv.ParseFloat(s, 64); ret
 func ghost_floatOf(s string) float64  { n, _ := strconv.ParseFloat(s, 64); return n }
 func ghost_parsesBool(s string) bool  { _, err := strconv.ParseBool(s); return err == nil }
 func ghost_boolOf(s string) bool      { b, _ := strconv.ParseBool(s); return b }
+
+// what the dynamic value of an interface holds (validators receive interface{} values)
+func ghost_anyKind(i interface{}) uint       { return uint(reflect.ValueOf(i).Kind()) }
+func ghost_anyInt(i interface{}) int64       { return ghost_rvInt(reflect.ValueOf(i)) }
+func ghost_anyUint(i interface{}) uint64     { return ghost_rvUint(reflect.ValueOf(i)) }
+func ghost_anyFloat(i interface{}) float64   { return ghost_rvFloat(reflect.ValueOf(i)) }
+func ghost_rvOf(i interface{}) reflect.Value { return reflect.ValueOf(i) }
+
+func ghost_parsesDur(s string) bool              { _, err := time.ParseDuration(s); return err == nil }
+func ghost_durOf(s string) time.Duration         { d, _ := time.ParseDuration(s); return d }
+func ghost_p2dOk(s string) bool                  { _, err := param2Duration(s); return err == nil }
+func ghost_p2dVal(s string) time.Duration        { d, _ := param2Duration(s); return d }
+func ghost_chased(v reflect.Value) reflect.Value { return chaseValue(v) }
